@@ -221,5 +221,26 @@ func init() {
 	extendProp("C01", "mark-flow: cursor positions the generated scanner keeps in locals of Lex between transitions (lblStart, lblEnd of the heredoc opener) are, at every action that reads them, recorded on every path of the automaton since the token began, in order (lblStart <= lblEnd, the cursor only moving forward in between) and inside the token - a forward must-analysis over the transition system. idx-guard discharges the slice lex.data[lblStart:lblEnd] and the index lex.data[lblStart-1] from it instead of from a reviewed exception (seed C01-10: the CR transitions of two states of the label machine exchanged, lblEnd never recorded in CRLF files, slice bounds out of range).",
 		[]report.Floor{{Rule: "mark-flow", What: "marks", Min: 2}, {Rule: "mark-flow", What: "uses", Min: 2}},
 		func(c *Ctx) { defer c.cleanup(); c.scanRun("mark-flow") })
+	extendProp("C07", "byte-class: the printer's label-character predicate equals PHP's on all 256 bytes, so two adjacent word tokens of a recovered tree are never fused into a token the source does not contain (seed C07-11: `r > 0x80`).",
+		[]report.Floor{{Rule: "byte-class", What: "evaluations", Min: 768}},
+		func(c *Ctx) { c.byteClasses() })
+	extendProp("C16", "no-carrier-escape: no parser-private carrier object (ParserBrackets, ...), whose Accept does nothing, is left in a child slot: the dumper would print the key and nothing after it, which is not Go source (seed C16-12).",
+		[]report.Floor{{Rule: "no-carrier-escape", What: "productions", Min: 1000}},
+		func(c *Ctx) { defer c.cleanup(); c.flows_("no-carrier-escape") })
+	extendProp("C17", "kind-of-operator: every operator production builds the node kind of its operator token - the formatter regenerates the operator's text from the kind, so a wrong kind that the printer hides (it reprints the source token) changes the program when formatted (seed C17-10: `^` in a PHP 5 constant expression built as `xor`). version-flow: the scanner's version tests are constant on {5.0-5.6},{7.0-7.2},{7.3,7.4}, so the formatted text, which closes heredocs in the flexible 7.3 style only where the source did, re-parses under the configured version (seed C17-12).",
+		[]report.Floor{{Rule: "kind-of-operator", What: "operator-productions", Min: 160}, {Rule: "version-flow", What: "uses", Min: 3}},
+		func(c *Ctx) {
+			defer c.cleanup()
+			c.flowRule("kind-of-operator", flowRules["kind-of-operator"])
+			c.Fixture("mini", "version-flow", false, func(p *load.Program, tb *kinds.Table) *report.RuleResult { return small.VersionFlow(p) })
+			if p, _, ok := c.RepoProgram(false); ok {
+				c.Add(small.VersionFlow(p))
+			}
+		})
+	const nn = "newline-neutral: inside a token whose body may contain line terminators (block and doc comments, quoted and backquoted strings, heredoc bodies, inline HTML, the text after __halt_compiler) the state the automaton is in after a line feed takes, byte by byte, the same transitions as the body state (same successor states, same possibility of ending the token): what follows a line break is scanned like what follows any other byte (seed C08-12: `*/` at the start of a line no longer closed its comment)."
+	nnF := []report.Floor{{Rule: "newline-neutral", What: "states", Min: 30}}
+	for _, id := range []string{"C08", "C03", "C02"} {
+		extendProp(id, nn, nnF, func(c *Ctx) { defer c.cleanup(); c.scanRun("newline-neutral") })
+	}
 	properties["PO"] = &Property{Level: "other", Run: func(c *Ctx) { defer c.cleanup(); c.presenceOracle() }}
 }
